@@ -259,3 +259,10 @@ def reflection(h, n=2):
     for k in range(H.ideal_basis.shape[-2]):
         ib = H.ideal_basis[k]
         h.eq(f"fixes ideal basis point {k}", ib @ M, ib, validate=False)
+    # two-step: move the wall by a symbolic rotation AFTER its reflection was queried, then ask again
+    g = _conj(h, n, tag='G')
+    H2 = g @ H
+    R2 = H2.reflection_across()
+    v2 = H2.spacelike_vector
+    h.eq("reflection across the moved wall negates the moved normal", v2 @ R2.proj_data, -v2, validate=False)
+    h.eq("reflection across the moved wall = conjugate of the original reflection", R2.proj_data, np.linalg.inv(g.proj_data) @ M @ g.proj_data, validate=False)
